@@ -299,7 +299,7 @@ func (w *c12World) cascade() string {
 			})
 			w.mu.Unlock()
 		}
-		deadline := time.Now().Add(3 * time.Second)
+		deadline := time.Now().Add(HxScale(3 * time.Second))
 		progressed := false
 		for !progressed {
 			bySeq()
@@ -370,9 +370,9 @@ func (w *c12World) advance(b *c12Batch) string {
 			w.holder = b.n
 		}
 	}()
-	d := 3 * time.Second
+	d := HxScale(3 * time.Second)
 	if short && !last {
-		d = 60 * time.Millisecond
+		d = HxScale(60 * time.Millisecond)
 	}
 	if last {
 		select {
@@ -414,7 +414,7 @@ func (w *c12World) cleanup() {
 			b.stop = nil
 		}
 	}
-	deadline := time.After(2 * time.Second)
+	deadline := time.After(HxScale(2 * time.Second))
 	for _, b := range w.batches {
 		for alive := true; alive; {
 			select {
@@ -633,7 +633,7 @@ func runC12(in *bufio.Scanner, out *bufio.Writer) {
 				fmt.Fprintf(out, "submit %d %s %s\n", bn, st.name, w.tail())
 			case <-b.done:
 				fmt.Fprintf(out, "submit %d %s %s\n", bn, w.finish(b), w.tail())
-			case <-time.After(3 * time.Second):
+			case <-time.After(HxScale(3 * time.Second)):
 				w.timeout()
 				fmt.Fprintf(out, "submit %d unexpected-timeout\n", bn)
 			}
@@ -655,9 +655,9 @@ func runC12(in *bufio.Scanner, out *bufio.Writer) {
 			w.xActive = true
 			w.mu.Unlock()
 			short := w.heldByOther(b)
-			d := 3 * time.Second
+			d := HxScale(3 * time.Second)
 			if short {
-				d = 80 * time.Millisecond
+				d = HxScale(80 * time.Millisecond)
 			}
 			go func() {
 				w.register(bn)
@@ -695,9 +695,9 @@ func runC12(in *bufio.Scanner, out *bufio.Writer) {
 			b := &c12Batch{n: bn, shift: true, done: make(chan struct{})}
 			w.batches[bn] = b
 			short := w.heldByOther(b)
-			d := 3 * time.Second
+			d := HxScale(3 * time.Second)
 			if short {
-				d = 80 * time.Millisecond
+				d = HxScale(80 * time.Millisecond)
 			}
 			p := "status"
 			req := &hydrapb.ShiftMatchingTreasuresRequest{IslandID: 1, SwampName: w.swName.Get(),
